@@ -243,6 +243,7 @@ def weave_function(src_fn, spec, path, W, opts, meta):
 
     inserts = []  # (token_index, order, text, obligation or None)  text inserted BEFORE token index
     deleted = set()
+    header_obs = []
     seq = [0]
 
     def add(at, txt, ob=None):
@@ -329,6 +330,12 @@ def weave_function(src_fn, spec, path, W, opts, meta):
                         j = match_close(toks, j)
                     j = next_sig(toks, j)
                 add(j + 1, " %s: " % label[0].name)
+            # the loop header itself (implicit iterator-law invariants of `for`): tags = union of the loop's clauses
+            ltags = sorted(set(t for c in spec.clauses if c.arg == n and c.kind in ("inv", "invxb", "loopensures") for t in c.tags))
+            if ltags:
+                hdr_lines = text(toks, kw, lo).count("\n")
+                header_obs.append((kw, {"fn": path, "kind": "loop-header", "name": "loop%d" % n, "tags": ltags, "loop": n,
+                                        "text": re.sub(r"\s+", " ", text(toks, kw, lo))[:200]}, hdr_lines))
             for (kind, kwd) in (("invxb", "invariant_except_break"), ("inv", "invariant"),
                                 ("loopensures", "ensures"), ("loopdec", "decreases")):
                 cls = [c for c in spec.of(kind) if c.arg == n]
@@ -437,6 +444,12 @@ def weave_function(src_fn, spec, path, W, opts, meta):
             out.append(txt)
             cur_line += txt.count("\n")
             ins_i += 1
+        for (hk, ho, hl) in header_obs:
+            if hk == idx:
+                ho = dict(ho)
+                ho["rel_line_start"] = cur_line
+                ho["rel_line_end"] = cur_line + hl
+                obs.append(ho)
         if idx < len(toks):
             t = toks[idx]
             if replace_ret and replace_ret[0] <= idx < replace_ret[1]:
